@@ -73,6 +73,35 @@ static void page_mode(long steps) {
   }
 }
 
+// ---------------------------------------------------------------- free-list extension (translator validation for the loop translation)
+// mode "ext <seed> <n>": the real mi_page_free_list_extend on pages of several size classes, with 1..40 fresh blocks at a time and
+// whatever free list the page has; prints area, capacity, block size, count, old list head -> new head, the chain, what follows it
+static void ext_mode(long n) {
+  static const size_t BS[] = { 8, 16, 48, 64, 112, 320, 1024, 4096 };
+  long lines = 0;
+  for (int c = 0; c < 8 && lines < n; c++) {
+    mi_heap_t* h = mi_heap_new();
+    size_t bsize = BS[c];
+    void* first = mi_heap_malloc(h, bsize);
+    mi_page_t* page = _mi_ptr_page(first);
+    uint8_t* start = mi_page_start(page); size_t bs = mi_page_block_size(page);
+    while (page->capacity < page->reserved && lines < n) {
+      size_t room = (size_t)(page->reserved - page->capacity);
+      size_t ext = 1 + (size_t)(rnd() % 40); if (ext > room) ext = room;
+      size_t cap = page->capacity; mi_block_t* old = page->free;
+      mi_page_free_list_extend(page, bs, ext, &h->tld->stats);
+      page->capacity = (uint16_t)(page->capacity + ext);
+      printf("EXT %zu %zu %zu %zu %zu ->", (size_t)(uintptr_t)start, cap, bs, ext, (size_t)(uintptr_t)old);
+      mi_block_t* b = page->free;
+      for (size_t i = 0; i < ext && b != NULL; i++) { printf(" %zu", (size_t)(uintptr_t)b); b = mi_block_next(page, b); }
+      printf(" | %zu\n", (size_t)(uintptr_t)b);
+      lines++;
+      if (rnd() % 3 == 0) page->free = NULL;        // the usual situation at the call site: the free list is empty (blocks dropped here are never used)
+    }
+    // the page is not used again: blocks dropped from the list above would otherwise be lost to it (the heap is abandoned to process exit)
+  }
+}
+
 // ---------------------------------------------------------------- segment
 static mi_segment_t* SEG; static mi_segments_tld_t* TLD;
 static void dump_seg(void) {
@@ -155,7 +184,7 @@ int main(int argc, char** argv) {
   if (argc < 4) { fprintf(stderr, "usage: c01 page|seg|snap <seed> <steps>\n"); return 2; }
   uint64_t seed = strtoull(argv[2], 0, 10); long steps = atol(argv[3]);
   rs ^= seed * 0x9E3779B97F4A7C15ULL; if (!rs) rs = 1; for (int i = 0; i < 8; i++) rnd();
-  if (strcmp(argv[1], "page") == 0) page_mode(steps); else if (strcmp(argv[1], "seg") == 0) seg_mode(steps); else snap_mode(steps);
+  if (strcmp(argv[1], "page") == 0) page_mode(steps); else if (strcmp(argv[1], "ext") == 0) ext_mode(steps); else if (strcmp(argv[1], "seg") == 0) seg_mode(steps); else snap_mode(steps);
   printf("DONE\n"); fflush(stdout);
   return 0;
 }
